@@ -737,9 +737,49 @@ def _returns_eliminable(stmts: List[ast.stmt]) -> bool:
                 for br in (st.body, st.orelse):
                     if _contains_return(br) and not _always_returns(br):
                         return False
+        elif isinstance(st, (ast.While, ast.For)) and _contains_return([st]):
+            # "search loop": `return e` inside the loop is `ret = e; break`, and what follows the loop is its else clause — sound only when
+            # the loop has no break or else of its own and every return sits under plain ifs of this loop (not in a nested loop, try or with)
+            return not st.orelse and _loop_returns_plain(st.body) and _returns_eliminable(stmts[i + 1:])
         elif _contains_return([st]):
             return False
     return True
+
+
+def _loop_returns_plain(stmts: List[ast.stmt]) -> bool:
+    for st in stmts:
+        if isinstance(st, ast.Break):
+            return False
+        if isinstance(st, ast.If):
+            if not (_loop_returns_plain(st.body) and _loop_returns_plain(st.orelse)):
+                return False
+        elif isinstance(st, (ast.While, ast.For, ast.Try, ast.With, ast.Match)):
+            if _contains_return([st]):
+                return False
+            if isinstance(st, (ast.Try, ast.With, ast.Match)) and any(isinstance(x, ast.Break) for x in ast.walk(st)):
+                return False
+    return True
+
+
+def _returns_to_breaks(stmts: List[ast.stmt], retvar: Optional[str]) -> List[ast.stmt]:
+    out: List[ast.stmt] = []
+    for st in stmts:
+        if isinstance(st, ast.Return):
+            if retvar is not None:
+                out.append(ast.copy_location(ast.Assign(targets=[ast.Name(id=retvar, ctx=ast.Store())], value=st.value if st.value is not None else ast.Constant(None)), st))
+            out.append(ast.copy_location(ast.Break(), st))
+            return out
+        if isinstance(st, ast.If) and _contains_return([st]):
+            new = ast.If(test=st.test, body=_returns_to_breaks(st.body, retvar), orelse=_returns_to_breaks(st.orelse, retvar))
+            ast.copy_location(new, st)
+            out.append(new)
+            continue
+        out.append(st)
+    for s_ in out:
+        for x in ast.walk(s_):
+            if not hasattr(x, "lineno"):
+                ast.copy_location(x, s_ if hasattr(s_, "lineno") else stmts[0])
+    return out
 
 
 def _eliminate_returns(stmts: List[ast.stmt], retvar: Optional[str]) -> List[ast.stmt]:
@@ -750,6 +790,20 @@ def _eliminate_returns(stmts: List[ast.stmt], retvar: Optional[str]) -> List[ast
         if isinstance(st, ast.Return):
             if retvar is not None:
                 out.append(ast.copy_location(ast.Assign(targets=[ast.Name(id=retvar, ctx=ast.Store())], value=st.value if st.value is not None else ast.Constant(None)), st))
+            return out
+        if isinstance(st, (ast.While, ast.For)) and _contains_return([st]):
+            rest = stmts[i + 1:]
+            tail = _eliminate_returns(rest, retvar) if rest else []
+            if retvar is not None and not _always_returns(rest):
+                tail.append(ast.Assign(targets=[ast.Name(id=retvar, ctx=ast.Store())], value=ast.Constant(None)))
+            new = norm.clone(st)
+            new.body = _returns_to_breaks(st.body, retvar)
+            new.orelse = tail
+            for s_ in tail:
+                for x in ast.walk(s_):
+                    if not hasattr(x, "lineno"):
+                        ast.copy_location(x, st)
+            out.append(new)
             return out
         if isinstance(st, ast.If) and _contains_return([st]):
             rest = stmts[i + 1:]
@@ -946,6 +1000,89 @@ def _inline_helpers(P: Program, f: Func, depth: int = 2) -> Func:
                     out.append(ast.copy_location(ast.Expr(value=ast.copy_location(ast.Yield(value=ret), st)), st))
                 changed_any = True
                 continue
+            # X.writerows(G)  ==  for r in G: X.writerow(r)      (csv writers write each row as it is pulled from the iterable)
+            if d > 0 and isinstance(st, ast.Expr) and isinstance(st.value, ast.Call) and isinstance(st.value.func, ast.Attribute) and st.value.func.attr == "writerows" \
+                    and len(st.value.args) == 1 and not st.value.keywords and isinstance(st.value.args[0], ast.Call) \
+                    and _inlinable(P, f, st.value.args[0], allow_yield=True) is not None:
+                counter[0] += 1
+                rv = f"row__w{counter[0]}"
+                wr = ast.Expr(value=ast.Call(func=ast.Attribute(value=st.value.func.value, attr="writerow", ctx=ast.Load()), args=[ast.Name(id=rv, ctx=ast.Load())], keywords=[]))
+                lp_ = ast.For(target=ast.Name(id=rv, ctx=ast.Store()), iter=st.value.args[0], body=[wr], orelse=[], type_comment=None)
+                for x in ast.walk(lp_):
+                    if not hasattr(x, "lineno"):
+                        ast.copy_location(x, st)
+                ast.copy_location(lp_, st)
+                queue.insert(0, lp_)
+                changed_any = True
+                continue
+            # for X in gen_helper(..): BODY   (optionally enumerate(gen_helper(..), start=k)):  the helper's body with every `yield E` replaced by
+            # `X = E; BODY` — the consumer runs once per value produced, at the point where it is produced
+            if d > 0 and isinstance(st, ast.For) and not st.orelse and isinstance(st.iter, ast.Call):
+                it = st.iter
+                enum_start = None
+                cnt_name = None
+                val_target = st.target
+                if isinstance(it.func, ast.Name) and it.func.id == "enumerate" and it.args and isinstance(it.args[0], ast.Call) and isinstance(st.target, ast.Tuple) and len(st.target.elts) == 2 \
+                        and isinstance(st.target.elts[0], ast.Name):
+                    sv = it.args[1] if len(it.args) > 1 else norm.kwarg(it, "start")
+                    if sv is None or (isinstance(sv, ast.Constant) and isinstance(sv.value, int)):
+                        enum_start = sv.value if sv is not None else 0
+                        cnt_name = st.target.elts[0].id
+                        val_target = st.target.elts[1]
+                        it = it.args[0]
+                tgen = _inlinable(P, f, it, allow_yield=True) if isinstance(it, ast.Call) else None
+                body_ok = not any(isinstance(x, (ast.Break, ast.Continue, ast.Return)) for b in st.body for x in ast.walk(b) if not isinstance(x, (ast.FunctionDef, ast.Lambda)))
+                if tgen is not None and body_ok and (enum_start is not None or st.target is val_target) \
+                        and not any(isinstance(x, ast.YieldFrom) or (isinstance(x, ast.Yield) and not isinstance(parent(x), ast.Expr)) for x in own_nodes(tgen.node)):
+                    counter[0] += 1
+                    gbody, _r = _instantiate(tgen, it, f"i{counter[0]}")
+                    renames = {}
+
+                    def at_yield(stmts_: List[ast.stmt]) -> List[ast.stmt]:
+                        res: List[ast.stmt] = []
+                        for s_ in stmts_:
+                            if isinstance(s_, ast.Expr) and isinstance(s_.value, ast.Yield):
+                                if cnt_name is not None:
+                                    res.append(ast.copy_location(ast.AugAssign(target=ast.Name(id=cnt_name, ctx=ast.Store()), op=ast.Add(), value=ast.Constant(1)), s_))
+                                yv = s_.value.value
+                                tnames = [t_.id for t_ in val_target.elts] if isinstance(val_target, ast.Tuple) and all(isinstance(t_, ast.Name) for t_ in val_target.elts) \
+                                    else ([val_target.id] if isinstance(val_target, ast.Name) else None)
+                                ynames = [y_.id for y_ in yv.elts] if isinstance(yv, ast.Tuple) and all(isinstance(y_, ast.Name) for y_ in yv.elts) \
+                                    else ([yv.id] if isinstance(yv, ast.Name) else None)
+                                suffix = f"__i{counter[0]}"
+                                if tnames and ynames and len(tnames) == len(ynames) and all(y_.endswith(suffix) for y_ in ynames) and len(set(ynames)) == len(ynames) \
+                                        and all(renames.get(y_, t_) == t_ for y_, t_ in zip(ynames, tnames)):
+                                    # the generator yields its own locals: they *are* the loop variables of the consumer
+                                    renames.update(dict(zip(ynames, tnames)))
+                                else:
+                                    tg_ = norm.clone(val_target)
+                                    res.append(ast.copy_location(ast.Assign(targets=[tg_], value=yv if yv is not None else ast.Constant(None)), s_))
+                                res.extend(norm.clone(b) for b in st.body)
+                                continue
+                            for fld_ in ("body", "orelse", "finalbody"):
+                                b_ = getattr(s_, fld_, None)
+                                if isinstance(b_, list) and b_ and isinstance(b_[0], ast.stmt):
+                                    setattr(s_, fld_, at_yield(b_))
+                            if isinstance(s_, ast.Try):
+                                for h_ in s_.handlers:
+                                    h_.body = at_yield(h_.body)
+                            res.append(s_)
+                        return res
+                    fused = at_yield(gbody)
+                    for x in fused:
+                        for y in ast.walk(x):
+                            if isinstance(y, ast.Name) and y.id in renames:
+                                y.id = renames[y.id]
+                    pre = []
+                    if cnt_name is not None:
+                        pre.append(ast.copy_location(ast.Assign(targets=[ast.Name(id=cnt_name, ctx=ast.Store())], value=ast.Constant(enum_start - 1)), st))
+                    for x in pre + fused:
+                        for y in ast.walk(x):
+                            if not hasattr(y, "lineno"):
+                                ast.copy_location(y, st)
+                    queue[:0] = pre + fused
+                    changed_any = True
+                    continue
             # `for x in helper(...)` / `if helper(...)`: the call is evaluated exactly once, before the statement
             pos = "iter" if isinstance(st, ast.For) else ("test" if isinstance(st, ast.If) else None)
             if pos and isinstance(getattr(st, pos), ast.Call) and d > 0:
